@@ -43,7 +43,12 @@ def fnum(x):
 
 def op_argv(op, knobs, load_argv=None):
     """argv (with {db}) for an op name, including the shared logging flags."""
+    flag = None
+    if "+" in op:
+        op, flag = op.split("+", 1)
     argv = _op_argv(op, knobs, load_argv)
+    if flag:
+        argv = argv + [flag]
     if op == "load-again" or op.endswith("-badargs"):
         return argv
     extra = []
@@ -102,9 +107,42 @@ def _op_argv(op, knobs, load_argv=None):
     raise ValueError(op)
 
 
+_EXTRA_FLAGS = None
+
+
+def extra_flags():
+    """Boolean command-line options of the five steps that this machinery does
+    not know (today there are none).  A tree that adds one -- say `--force` --
+    has it exercised like any other argument: alone and together with other
+    argument values, fault free and under faults, judged by the same oracles."""
+    global _EXTRA_FLAGS
+    if _EXTRA_FLAGS is None:
+        import argparse  # pylint: disable=import-outside-toplevel
+        flags = {}
+        try:
+            cli._main()  # pylint: disable=protected-access
+            import spowtd.user_interface as ui  # pylint: disable=import-outside-toplevel
+            parser = ui.create_parsers()[0]
+            for action in parser._actions:  # pylint: disable=protected-access
+                if isinstance(action, argparse._SubParsersAction):  # pylint: disable=protected-access
+                    for name, sub in action.choices.items():
+                        if name not in STEPS:
+                            continue
+                        for act in sub._actions:  # pylint: disable=protected-access
+                            if act.option_strings and act.nargs == 0 and not isinstance(
+                                    act, (argparse._HelpAction, argparse._CountAction)):  # pylint: disable=protected-access
+                                flags.setdefault(name, []).append(max(act.option_strings, key=len))
+        except Exception:  # pylint: disable=broad-except
+            flags = {}
+        _EXTRA_FLAGS = flags
+    return _EXTRA_FLAGS
+
+
 def step_of(op):
     """The workflow step an op would complete if it succeeded (None for
     read-only commands and load)."""
+    if "+" in op:
+        op = op.split("+", 1)[0]
     if op in STEPS:
         return op
     if op in ("rise-offgrid", "rise-absent"):
@@ -1062,6 +1100,12 @@ class Trial:
         todo = [s for s in STEPS if s not in self.acked]
         ready = [s for s in todo if all(p in self.acked for p in PREREQ[s])]
         c = rng.random()
+        flags = extra_flags()
+        if flags and rng.random() < 0.15:
+            # an option this machinery has never heard of: try it on a step, with the same or other arguments
+            name = rng.choice(sorted(flags))
+            variant = rng.choice([name, name + "-other"] if name in ("classify", "set-zeta-grid", "set-curvature") else [name])
+            return variant + "+" + rng.choice(flags[name])
         if todo and c < 0.58:
             if ready and rng.random() < 0.8:
                 return rng.choice(ready)
@@ -1699,8 +1743,15 @@ def check(tier, only=None):
                                       "field": 1 + i % 2}))
         if only in (None, "sweeps"):
             nsh = cfg["shards"]
+            cases = list(SWEEP_CASES)
+            for name, fl in sorted(extra_flags().items()):
+                for f in fl:
+                    variant = (name + "-other" if name in ("classify", "set-zeta-grid", "set-curvature") else name) + "+" + f
+                    # the unknown option on a finished workflow, and on a bare dataset
+                    cases.append((variant, ("classify", "set-zeta-grid", "set-curvature", "recession", "rise")))
+                    cases.append((variant, ()))
             for rep in range(cfg["sweeps"]):
-                for ci, (step, prefix) in enumerate(SWEEP_CASES):
+                for ci, (step, prefix) in enumerate(cases):
                     for sh in range(nsh):
                         jobs.append(("sweep", {"seed": runner.derive_seed(seed, "C20", "sweep", rep, ci), "step": step,
                                                "prefix": list(prefix), "max_positions": cfg["sweep_max"],
